@@ -1,6 +1,6 @@
 (* C13 — stats account for every message.  Property theorems only. *)
 From Coq Require Import List NArith ZArith.
-From NSQV Require Import model.Core proofs.CoreBase proofs.CoreStats.
+From NSQV Require Import model.Core proofs.CoreBase proofs.CoreStats proofs.CoreCountInv proofs.CoreClientCounts.
 Import ListNotations.
 Open Scope N_scope.
 
@@ -29,6 +29,37 @@ Theorem C13_topic_counters : forall cfg s o tp', In tp' (s_topics (fst (step cfg
   topic_counts_ok cfg s o tp'.
 Proof. exact topic_counters. Qed.
 Print Assumptions C13_topic_counters.
+
+(* each consumer's finish / requeue / message counters equal what that consumer actually
+   did: the number of its FINs and REQs that were accepted and of the messages delivered to
+   it, tallied over the whole history (answers included), for EVERY history *)
+Theorem C13_client_counters_exact : forall cfg ops k kl,
+  find_client (run cfg init ops) k = Some kl ->
+  (k_fincount kl, k_reqcount kl, k_msgcount kl) = tally cfg init ops k.
+Proof. exact client_counters_exact. Qed.
+Print Assumptions C13_client_counters_exact.
+
+(* its in-flight count equals the in-flight entries it owns on its channel, and is never negative *)
+Theorem C13_client_inflight_exact : forall cfg ops tp ch kl,
+  let s := run cfg init ops in
+  In tp (s_topics s) -> In ch (t_chans tp) -> In kl (s_clients s) -> In (k_id kl) (c_clients ch) ->
+  k_ifl kl = owned (k_id kl) (c_ifl ch) /\ k_sub kl = Some (t_id tp, c_id ch).
+Proof. exact counter_exact. Qed.
+Print Assumptions C13_client_inflight_exact.
+Theorem C13_client_inflight_nonneg : forall cfg ops tp ch kl,
+  let s := run cfg init ops in
+  In tp (s_topics s) -> In ch (t_chans tp) -> In kl (s_clients s) -> In (k_id kl) (c_clients ch) ->
+  (0 <= k_ifl kl)%Z.
+Proof. exact counter_nonneg. Qed.
+Print Assumptions C13_client_inflight_nonneg.
+
+Example C13_client_witness :
+  let cfg := mkCfg 10 900000000000%Z in
+  let ops := [OCreateTopic 1 false; OConnect 7 1000%Z; OSub 7 1 1 false false 0%Z; ORdy 7 5%Z;
+              OPub 1 false [10;11;12] 30 0%Z 1%Z; ODeliver 7 10 2%Z; ODeliver 7 11 2%Z; ODeliver 7 12 2%Z;
+              OFin 7 10; OFin 7 10; OReq 7 11 0%Z 3%Z; OFin 9 12; ODeliver 7 11 4%Z] in
+  tally cfg init ops 7 = (1, 1, 4).
+Proof. vm_compute. reflexivity. Qed.
 
 (* non-vacuity: a concrete history with overflow to "disk", a requeue, a timeout and an empty *)
 Example C13_witness :
